@@ -209,7 +209,19 @@ fn gen_history(p: &mut Prng, arch: Arch, n_ops: usize) -> Hist {
             92 | 93 => ops.push(Op::Max { u }),
             _ => {
                 let pc = if !addrs.is_empty() { *p.pick(&addrs) } else { 0x1000 };
-                let regs = gen_regs(p, arch, pc);
+                let mut regs = gen_regs(p, arch, pc);
+                // the x86-64 register set carries an instruction pointer of its own; the walk
+                // starts at `pc` but unwinds from the registers it is given, whatever their ip says
+                if let RegsAny::X(r) = &mut regs {
+                    if p.chance(1, 4) {
+                        r.ip = match p.below(4) {
+                            0 => pc.wrapping_add(1),
+                            1 => 0,
+                            2 if !addrs.is_empty() => *p.pick(&addrs),
+                            _ => crate::rules::gen_u64(p),
+                        };
+                    }
+                }
                 let mem = gen_mem(p, &regs);
                 ops.push(Op::Iter { u, c, pc, regs, mem, extra: p.below(4), max: 40 });
             }
